@@ -871,6 +871,12 @@ class T(Wrapper):
     def __len__(self):
         return len(self.arg) + 1
 
+    def verify(self):
+        # t:X = and_v(X,1): X is V
+        super().verify()
+        if self.arg.type != "V":
+            raise MiniscriptError("t: X should be V")
+
     @property
     def properties(self):
         # z=zXzY; o=zXoY or zYoX; n=nX or zXnY; u=uY
